@@ -172,6 +172,13 @@ for _p, _t in (("C04", "FramebufferTag::buffer_type (all four type classes, pale
                ("C02", "ref_from_ptr = ref_from_slice on exactly total_size() bytes, ref_from_slice precedence; load_eq_closed (load depends only on the declared size and the last 8 bytes: family LOADBIG with really mapped regions up to 4 GiB)")):
     CLAIMS[_p]["text"] = CLAIMS[_p]["text"].replace("): ", "): " + _t + "; ", 1) if CLAIMS[_p]["text"].startswith("SOURCE = MODEL for function bodies") else _t + ". " + CLAIMS[_p]["text"]
 
+for _p, _t in (("C13", "SOURCE = MODEL for find_header (translator tools/gen_fns.py): Fns.find_header_eq - the translated body evaluates to the decision sequence findDecision (buffer alignment, no magic -> Ok(None), misaligned magic, length word outside the buffer, header outside the buffer, else sub-slice and index) with the window scan over ..min(8192), buffer.get(+8..+12) and the checked sub-slice as inputs pinned by their source text; Fns.findHeaderAt_eq_decision - the model's findHeaderAt is that decision sequence."),
+               ("C15", "SOURCE = MODEL for DynSizedStructure::cast: Fns.cast_eq (the two asserts, in both profiles) and castTo_decision."),
+               ("C16", "SOURCE = MODEL for new_boxed / clone_dyn / set_size (translator tools/gen_fns.py): Fns.new_boxed_eq (tag size, increase_to_alignment, final size_of_val assertion), new_boxed_copy_step_eq (one iteration of the copy loop), new_boxed_effects_pinned / new_boxed_loop_pinned (set_size, header copy, slice copies to heap_ptr.add(write_offset) in order), copy_chain_is_concat (such a chain of writes is exactly header ++ concatenated content), *_header_set_size_eq for the four header kinds, clone_dyn_is_new_boxed_of_payload."),
+               ("C17", "SOURCE = MODEL for the string constructors and accessors: Fns.cmdline_new_eq / loader_new_eq / module_new_eq (NUL appended unless the text ends in one; module: end > start or panic), parse_slice_as_string pinned as CStr::from_bytes_until_nul then to_str, the three accessors parse exactly the unsized tail.")):
+    CLAIMS[_p]["text"] = _t + " " + CLAIMS[_p]["text"]
+    CLAIMS[_p]["technique"] += " + source-to-IR translation of the function bodies with kernel-checked equivalence to the model"
+
 NOT_YET = "not yet claimed: the Lean model, theorems and correspondence check for this property are still being built (DESIGN.md section 12 gives the order); the technique applies and the property will be claimed"
 
 
